@@ -129,6 +129,9 @@ func TestVerifC19_sum_agg(t *testing.T) {
 		RTMaxBatch:  2,
 		Seeds:       r.Pick(3, 5),
 		DomainLimit: 8,
+		SweepInsts:    []prio.Inst{c19Sum(2), c19Sum(3)},
+		HistoryInsts:  []prio.Inst{c19Sum(2), c19Sum(1000)},
+		HistoryShares: []int{2, 3},
 	}
 	if r.Thorough() {
 		plan.FullShares = []int{2, 3, 4, 9}
